@@ -33,6 +33,40 @@ def load_findings():
         return json.load(f)
 
 
+class WCtx:
+    """what a check function may use inside a worker process"""
+
+    def __init__(self, seed, tmp, tier):
+        self.seed = seed
+        self.tmp = tmp
+        self.tier = tier
+        self.drift = []
+        self.notes = []
+
+    def spec_drift(self, s):
+        if len(self.drift) < 20 and s not in self.drift:
+            self.drift.append(s)
+
+    def note(self, s):
+        if s not in self.notes:
+            self.notes.append(s)
+
+
+_PM = {}
+
+
+def _pm_call(args):
+    i, case = args
+    w = WCtx(_PM["seed"], _PM["tmp"], _PM["tier"])
+    try:
+        fails = _PM["fn"](w, case)
+    except Exception as ex:  # a harness exception inside a worker is a machinery failure, reported by the parent
+        import traceback
+
+        return i, None, traceback.format_exc(), [], []
+    return i, fails, None, w.drift, w.notes
+
+
 class Ctx:
     def __init__(self, prop, tier, seed):
         self.prop = prop
@@ -101,6 +135,31 @@ class Ctx:
                 "TLC: %s violated in %s\n%s" % (res.violated, module, "\n".join(res.trace[:60])),
                 {"k": "tlc", "module": module, "cfg": cfgkw},
             )
+        return res
+
+    # ---- parallel replay ------------------------------------------------------------------------
+    def pmap(self, fn, cases, nproc=None, chunksize=8):
+        """run fn(wctx, case) -> [(key, msg)] over all cases in forked worker processes; returns list of fails per case"""
+        import multiprocessing as mp
+
+        cases = list(cases)
+        nproc = nproc or min(16, max(1, (os.cpu_count() or 2)))
+        if len(cases) < 16 or nproc == 1 or self.replay_mode:
+            out = []
+            for c in cases:
+                out.append(fn(self, c))
+            return out
+        _PM.update(fn=fn, seed=self.seed, tmp=self.tmp, tier=self.tier)
+        res = [None] * len(cases)
+        with mp.get_context("fork").Pool(nproc) as pool:
+            for i, fails, err, drift, notes in pool.imap_unordered(_pm_call, list(enumerate(cases)), chunksize=chunksize):
+                if err is not None:
+                    raise RuntimeError("worker failed on case %d:\n%s" % (i, err))
+                res[i] = fails
+                for d in drift:
+                    self.spec_drift(d)
+                for nt in notes:
+                    self.note(nt)
         return res
 
     # ---- cases -------------------------------------------------------------------------------
